@@ -3,6 +3,12 @@
 import json
 ALL = ["C%02d" % i for i in range(1, 21)]
 CHECKS = {
+ "C11": dict(
+   category="fault_enumeration",
+   technique="exhaustive single-fault enumeration: every conformant store/request of a small universe through every schema-taking entry point must be accepted, every single-fault mutation (60+ fault classes x positions x base data x 2 schema syntaxes) must be rejected by every entry point that receives the faulty part; oracle = conformance predicate written from the statement",
+   text="Fault enumeration (deviation bound = 1 fault): the conformant side enumerates the product of presence/optional/value/parent choices of universe W; the fault side applies each single requirement violation at each position where it applies and runs all 17 entry points. Exactness is two for-alls across entry points that each re-implement part of the walk, so enumerating (fault class x entry point) completely is what exposes an entry point that skips one check.",
+   note="Trusted base: schema.rs conformance oracle (entity_conforms/request_conforms), generators. Faults are single. One genuine defect is listed in known_findings.json (F3: Context::from_json_value with a schema does not type-check primitive / entity-typed / enum-typed attributes).",
+   design="§3 C11"),
  "C05": dict(
    technique="bounded-exhaustive enumeration of policy texts (every operator nesting parent x position x child, depth-3 chains, literal/unary-minus corners, all strings <=2 over a 15-char content alphabet in every string position, policy-level grid) in 3 parenthesisation/escape styles; each parsed, printed, re-parsed by the real code and compared structurally (loc-free abstraction) and semantically (reference evaluator)",
    text="Model checking in the small-scope sense: the full finite space of programs below the bound is enumerated; for each the real parser and printer are run (text->AST->Display->AST, and JSON->to_cedar->AST) and the re-parsed object is compared with the first for structural identity, and both are evaluated and compared with the reference evaluator's verdict for the generator's term. Right level: printing decides parentheses/escapes by case analysis over the AST, and a missing case only shows for particular nestings - which bounded-exhaustive nesting enumeration covers completely.",
